@@ -31,6 +31,8 @@ shrink(spec) -> iterator of smaller specs (drop triples, prefixes, base; simplif
 xml10_ok(s) -> bool                   every char of s is an XML 1.0 `Char`
 xml_expressible(spec) -> (ok, reason) RDF/XML can express the graph (predicates splittable into namespace +
                                       NCName by an independent splitter, all literal text and language tags XML-1.0-safe)
+gen_round2(rng, spec) -> dict          a prefix re-binding + new triple to apply to the SAME graph object after a first
+                                       round of serialisations (two-round cases; mutates spec: adds a strict-split predicate)
 xml_splittable(iri) -> bool            some split namespace + XML NCName exists
 bnodes(spec) -> sorted blank-node labels of a spec
 Pools (module constants, extend freely): NAMESPACES, LOCALS, SAFE_LOCALS, WELL_KNOWN, CHAR_POOL, TEXT_FIXED, LANGS,
@@ -155,7 +157,17 @@ BIND_SETS = [
     [["xsd2", XSD], ["dt", "http://ex.org/dt#"], ["r", RDF]],
     [["a.b", NAMESPACES[0]], ["\xe9", NAMESPACES[1]], ["A", NAMESPACES[2]], ["ns1", NAMESPACES[3]]],
 ]
-BASES = ["http://ex.org/a/", "http://ex.org/ns", "http://ex.org/ns#", "http://ex.org/", "urn:x:", "http://ex.org/a/deep/x"]
+BASES = ["http://ex.org/a/", "http://ex.org/ns", "http://ex.org/ns#", "http://ex.org/", "urn:x:", "http://ex.org/a/deep/x",
+         "http://example.org/doc/", "http://ex.org/a/", "http://example.org/doc/", "http://ex.org/a/./b/", "http://ex.org/a/../b/"]
+# IRIs *under the base*: base + remainder.  A writer may only cut the base off where the remainder, read as a relative
+# reference (RFC 3986 §4.2, §5.2), resolves back to the IRI: not when it looks like `scheme:…`, starts with `/` or
+# `//`, or contains dot segments; empty, `?…` and `#…` remainders are the other corner cases.
+TRICKY_REMAINDERS = ["isbn:0451450523", "taxonomy:9606", "a:b", "x:", ":y", "mailto:z", "urn:x", "http:", "c:/d", "a:b/c",
+                     "q?q=a:b", "?q=a:b", "#f:g", "f#f:g", "a/b:c", "", "?", "#", "?x", "#frag", "x?", "x#",
+                     "/x", "//x", "//host/x", "..", "../x", ".", "./x", "a/../b", "a/./b", "a/..", "x/", "x//y", "plain",
+                     "1st", "p:q", "a%3Ab", "\xe9:x", "a+b:c", "A.b-c:d"]
+# local names that are not XML NCNames but split strictly (…1 + st): RDF/XML needs its own, generated prefix
+STRICT_LOCALS = ["1st", "2nd", "3D", "9lives", "1a", "7_x"]
 
 # ------------------------------------------------------------------ terms
 
@@ -569,8 +581,44 @@ def gen_spec(rng, size=None, profile="mixed", lists="all"):
     r = rng.random()
     bind = "rdflib" if r < 0.5 else ("none" if r < 0.85 else "core")
     prefixes = rng.choice(BIND_SETS) if rng.random() < 0.6 else []
-    base = rng.choice(BASES) if rng.random() < 0.35 else None
+    base = rng.choice(BASES) if rng.random() < 0.4 else None
+    if base is not None and rng.random() < 0.65:
+        # IRIs under the base with RFC 3986-tricky remainders, in subject, predicate and object position
+        c.motifs.append("base_tricky")
+        for _ in range(rng.randint(1, 3)):
+            def under():
+                return I(base + rng.choice(TRICKY_REMAINDERS))
+            pos = rng.choice(["s", "o", "so", "p", "spo", "o"])
+            s_ = under() if "s" in pos else c.iri()
+            p_ = under() if "p" in pos else c.pred()
+            o_ = under() if "o" in pos else c.obj(0.3)
+            if [s_, p_, o_] not in c.ts:
+                c.ts.append([s_, p_, o_])
+        if rng.random() < 0.3:
+            c.ts.append([I(base), c.pred(), I(base)])
     return {"triples": c.ts, "prefixes": [list(p) for p in prefixes], "bind": bind, "base": base, "motifs": c.motifs}
+
+
+OTHER_NAMESPACES = ["http://other.example/ns/", "http://other.example/v#", "urn:other:", "http://ex.org/a/deep/er/",
+                    "http://other.example/ns/1"]
+
+
+def gen_round2(rng, spec):
+    """A second round for the same graph object (see C03): after the first serialisations, one of the prefixes they
+    generated (ns1, ns2, …) or that the spec bound is re-bound to another namespace and a triple with a predicate in
+    that namespace is added; then everything is serialised and parsed again.
+    -> {"pick": n, "ns": namespace, "local": name, "mode": "replace" | "override", "subj": term, "obj": term}
+    (`pick` indexes the sorted candidate prefixes at run time; the caller decides what a candidate is).
+    Also makes sure the graph has a predicate whose local name needs the strict (RDF/XML) split."""
+    if rng.random() < 0.7:
+        ns = rng.choice(NAMESPACES[:3] + NAMESPACES[4:6])
+        spec["triples"].append([gen_iri(rng), I(ns + rng.choice(STRICT_LOCALS)), gen_literal(rng, "plain")])
+        if "xml_safe" in spec.get("motifs", []):
+            t = spec["triples"][-1]
+            t[2] = L("".join(ch for ch in t[2][1] if xml10_ok(ch)))
+    return {"pick": rng.randint(0, 5), "ns": rng.choice(OTHER_NAMESPACES), "local": rng.choice(["p", "q1", "Rel", "x_y"]),
+            "mode": rng.choice(["replace", "replace", "override"]),
+            "subj": gen_iri(rng), "obj": L(rng.choice(["other", "", "2"]))}
 
 
 # ------------------------------------------------------------------ analysis helpers (independent of rdflib's serializers)
